@@ -400,6 +400,9 @@ func run(c *core.Case) {
 				if cl != "l0f" && cl != "l0c" && cl != "deep" {
 					continue
 				}
+				if s.Kind == "ingest" {
+					cl = "ingest"
+				}
 				seen := map[uint64]int{}
 				for _, en := range s.Entries {
 					seen[en.Version]++
@@ -409,7 +412,7 @@ func run(c *core.Case) {
 					if n > 1 {
 						// duplicates of one version inside one table: a compaction
 						// merged two tied copies, order inside is the merge order.
-						perVer[v] = append(perVer[v], cl)
+						perVer[v] = append(perVer[v], "dup")
 					}
 				}
 			}
@@ -417,9 +420,13 @@ func run(c *core.Case) {
 				if len(classes) < 2 {
 					continue
 				}
+				// The recorded finding concerns ties among tables of the ingest buffer
+				// (and what ingest compactions make of them). One ingest table over
+				// one table of the level's sorted run is resolved correctly (the
+				// ingest buffer is searched first and wins ties), so it is not tainted.
 				deep, l0c := 0, 0
 				for _, cl := range classes {
-					if cl == "deep" {
+					if cl == "ingest" || cl == "dup" {
 						deep++
 					}
 					if cl == "l0c" {
